@@ -81,6 +81,10 @@ pub struct SimState<O, I> {
     pub fault_flush: bool,
     pub fault_close: bool,
     pub fault_next: bool,
+    /// calls of an armed kind still to be let through before it fails
+    pub fault_skip: u64,
+    /// the owner's own flush wakes a waker registered by `poll_ready` (staging sinks do not)
+    pub self_wake: bool,
     pub closed: bool,
     pub failed: bool,
     pub got_ready: bool,
@@ -115,6 +119,8 @@ impl<O, I> SimState<O, I> {
             fault_flush: false,
             fault_close: false,
             fault_next: false,
+            fault_skip: 0,
+            self_wake: true,
             closed: false,
             failed: false,
             got_ready: false,
@@ -152,10 +158,20 @@ impl<O, I> SimState<O, I> {
             panic!("verif-spin");
         }
     }
+    /// An armed fault fires at this call iff no calls remain to be let through; otherwise one skip is used up.
+    fn fires(&mut self, armed: bool) -> bool {
+        if armed && self.fault_skip == 0 {
+            return true;
+        }
+        if armed {
+            self.fault_skip -= 1;
+        }
+        false
+    }
     fn drain(&mut self) {
         let items: Vec<O> = self.buffered.drain(..).collect();
         self.wire.extend(items);
-        if self.write_waker.is_some() && self.is_ready_now() {
+        if self.write_waker.is_some() && self.is_ready_now() && self.self_wake {
             self.write_waker.take().unwrap().wake();
         }
     }
@@ -206,7 +222,8 @@ impl<O, I> Stream for SimTransport<O, I> {
     fn poll_next(self: Pin<&mut Self>, cx: &mut Context<'_>) -> Poll<Option<Self::Item>> {
         let mut s = self.0.borrow_mut();
         s.count();
-        if s.fault_next {
+        let armed = s.fault_next;
+        if s.fires(armed) {
             s.fault_next = false;
             s.term_seen = true;
             log(format!("T {} next E", s.name));
@@ -243,7 +260,8 @@ impl<O, I> Sink<O> for SimTransport<O, I> {
         let mut s = self.0.borrow_mut();
         s.count();
         s.use_after("ready");
-        let r = if s.fault_ready {
+        let armed = s.fault_ready;
+        let r = if s.fires(armed) {
             s.fault_ready = false;
             s.failed = true;
             s.term_seen = true;
@@ -268,7 +286,8 @@ impl<O, I> Sink<O> for SimTransport<O, I> {
         let text = (s.show_out)(&item);
         s.got_ready = false;
         let body = s.body_of.and_then(|f| f(&item));
-        if s.fault_send {
+        let armed = s.fault_send;
+        if s.fires(armed) {
             s.fault_send = false;
             if body.is_none() {
                 s.term_seen = true; // a failed cancel / response write ends the connection
@@ -287,7 +306,8 @@ impl<O, I> Sink<O> for SimTransport<O, I> {
         let mut s = self.0.borrow_mut();
         s.count();
         s.use_after("flush");
-        let r = if s.fault_flush {
+        let armed = s.fault_flush;
+        let r = if s.fires(armed) {
             s.fault_flush = false;
             s.failed = true;
             s.term_seen = true;
@@ -308,7 +328,8 @@ impl<O, I> Sink<O> for SimTransport<O, I> {
         let mut s = self.0.borrow_mut();
         s.count();
         s.use_after("close");
-        let r = if s.fault_close {
+        let armed = s.fault_close;
+        let r = if s.fires(armed) {
             s.fault_close = false;
             s.failed = true;
             s.term_seen = true;
